@@ -303,6 +303,18 @@ func (fx *FX) callContract(st *State, v ssa.Value, callee *ssa.Function, fc *Fun
 	fc.Used = true
 	sub := &FX{u: fx.u, fn: callee, fc: fc, name: fx.name}
 	_ = sub
+	// an unconditional `ensures offset0(r)` (proved in the callee) makes the result slice's offset the literal 0 here,
+	// which keeps index arithmetic out of the quantifier patterns of the callee's other clauses
+	if rsl, isSl := res.(VSlice); isSl && len(fc.Results) == 1 {
+		for _, e := range fc.Ensures {
+			if ec, ok := e.E.(ECall); ok && ec.Fn == "offset0" && len(ec.Args) == 1 {
+				if id, ok := ec.Args[0].(EIdent); ok && id.Name == fc.Results[0] {
+					rsl.Off = num(0)
+					res = rsl
+				}
+			}
+		}
+	}
 	// callee environment
 	ce := &calleeEnv{caller: fx, callee: callee, fc: fc, st: st.clone(), params: map[string]Val{}}
 	for i, p := range callee.Params {
